@@ -327,3 +327,31 @@ def reaching_sources(F, use, depth=0):
     if not out:
         out.add("<undefined:%s>" % u.text())
     return out
+
+
+def expand_aliases(F, node, depth=0, at=None):
+    """text of an expression with local pointer aliases replaced by the one definition that reaches the use
+    (struct msa_seq* s = msa->sequences[k]; ... s->gaps  ->  msa->sequences[k]->gaps)"""
+    n = node.strip(casts=True)
+    at = at if at is not None else node
+    if n.k == "DeclRefExpr" and n.d.get("dk") == "Var" and not n.d.get("g") and depth < 3 and n.ty.endswith("*"):
+        cfg = F.cfg
+        upos = cfg.position(at)
+        defs = [(r, d) for r, d in local_defs(F, n.d["did"])]
+        live = []
+        for r, d in defs:
+            dp = cfg.position(d)
+            if dp is None or upos is None:
+                continue
+            others = [cfg.position(d2) for r2, d2 in defs if d2 is not d]
+            if cfg.reaches(dp, upos, avoid=[o for o in others if o is not None]):
+                live.append(r)
+        live = [r for r in live if r is None or not ("NULL" in r.mac or r.strip(casts=True).cv == 0)]
+        if len(live) == 1 and live[0] is not None:
+            return expand_aliases(F, live[0], depth + 1, at=live[0])
+        return n.text()
+    if n.k == "MemberExpr":
+        return "%s%s%s" % (expand_aliases(F, n.kids[0], depth, at), "->" if n.d.get("arrow") else ".", n.d["field"])
+    if n.k == "ArraySubscriptExpr":
+        return "%s[%s]" % (expand_aliases(F, n.kids[0], depth, at), n.kids[1].strip(casts=True).text())
+    return n.text()
